@@ -84,6 +84,7 @@ theorem get_none_of_all_lt (caps : List (Nat × Bytes)) (n : Nat) (h : ∀ i c, 
 
 variable {K : Type} [DecidableEq K]
 
+omit [DecidableEq K] in
 theorem alloc_spec (db : Db K) (cap : Bytes) (hok : CapsOk db.caps db.nextId) :
     CapsOk (alloc db cap).1.caps (alloc db cap).1.nextId
     ∧ get (alloc db cap).2 (alloc db cap).1.caps = some cap
@@ -117,6 +118,7 @@ def FileInv (db : Db K) (hist : List Op) : Prop :=
     ∃ cap, get rec.fileid db.caps = some cap ∧
       lastUploadOf path hist = some (rec.size, rec.mtime, rec.ctime, cap)
 
+omit [DecidableEq K] in
 theorem fileInv_empty : FileInv ({} : Db K) [] := by
   refine ⟨?_, ?_⟩
   · intro i c h; simp at h
